@@ -122,9 +122,21 @@ func gen(r *rand.Rand, kw string, depth int) *stmt {
 		}
 	}
 	k := r.Intn(5)
+	wide := false
+	if depth <= 1 && r.Intn(10) == 0 {
+		wide = true
+		// wide statements: dozens of substatements, shuffled below, so that the order among
+		// same-keyword siblings is checked on lists longer than a handful (a seeded change
+		// sorted the substatements with an unstable sort, which moves nothing below 13)
+		k = 10 + r.Intn(40)
+	}
 	for i := 0; i < k && len(names) > 0; i++ {
 		var c string
-		switch x := r.Intn(60); {
+		x := r.Intn(60)
+		if wide && x < 3 && r.Intn(8) > 0 {
+			x = 8 // (a wide statement with a fault in it is rejected like a narrow one; most are to be accepted)
+		}
+		switch {
 		case x == 0:
 			c = allKw[r.Intn(len(allKw))]
 		case x == 1:
@@ -145,10 +157,10 @@ func gen(r *rand.Rand, kw string, depth int) *stmt {
 		default:
 			c = names[r.Intn(len(names))]
 			f := fields[c]
-			if f.reqKind != "" && f.reqKind != kw && r.Intn(20) != 0 {
+			if f.reqKind != "" && f.reqKind != kw && (wide || r.Intn(20) != 0) {
 				continue
 			}
-			if !f.multi && r.Intn(20) != 0 {
+			if !f.multi && (wide || r.Intn(20) != 0) {
 				dup := false
 				for _, e := range s.sub {
 					if e.kw == c {
@@ -160,7 +172,11 @@ func gen(r *rand.Rand, kw string, depth int) *stmt {
 				}
 			}
 		}
-		s.sub = append(s.sub, gen(r, c, depth+1))
+		if wide {
+			s.sub = append(s.sub, gen(r, c, depth+4)) // shallow children
+		} else {
+			s.sub = append(s.sub, gen(r, c, depth+1))
+		}
 	}
 	r.Shuffle(len(s.sub), func(a, b int) { s.sub[a], s.sub[b] = s.sub[b], s.sub[a] })
 	return s
@@ -435,6 +451,9 @@ func Run(j *job.Job, s *job.Sink) {
 			}
 		default:
 			s.Count("accepted", 1)
+			if len(t.sub) > 12 {
+				s.Count("accepted_with_more_than_12_substatements", 1)
+			}
 			if depthOf(t) >= 3 {
 				s.Count("nontrivial", 1)
 			}
